@@ -3156,9 +3156,18 @@ func (ts *TokenStore) handleCreateCommon(ctx context.Context, req *logical.Reque
 		te.TTL = ttl
 	}
 
-	// Root tokens are still bound by explicit max TTL
+	// Root tokens are still bound by explicit max TTL; as the token then
+	// expires, it is also bound by the mount and system maximum like any
+	// other expiring token.
 	if te.TTL == 0 && explicitMaxTTLToUse > 0 {
-		te.TTL = explicitMaxTTLToUse
+		ttl, warnings, err := framework.CalculateTTL(sysView, 0, explicitMaxTTLToUse, 0, 0, explicitMaxTTLToUse, time.Unix(te.CreationTime, 0))
+		if err != nil {
+			return nil, err
+		}
+		for _, warning := range warnings {
+			resp.AddWarning(warning)
+		}
+		te.TTL = ttl
 	}
 
 	// Don't advertise non-expiring root tokens as renewable, as attempts to
